@@ -6,6 +6,7 @@ source data or other operators. This module defines how they combine.
 from __future__ import annotations
 
 from abc import ABC
+from copy import copy as shallow_copy
 from functools import reduce
 from itertools import chain
 from inspect import signature
@@ -207,7 +208,10 @@ class Expr(ABC):
         """
 
         if isinstance(self, Variable) and self.bound:
-            return self.bound.normalize(recursive)
+            # Abstractions are reduced in place (their parameters are popped),
+            # so every occurrence of a bound variable needs its own copy of the
+            # binding: `twice f x = f (f x)` applies `f` twice.
+            return self.bound.copy().normalize(recursive)
 
         elif isinstance(self, Abstraction):
             if recursive:
@@ -235,6 +239,30 @@ class Expr(ABC):
                     assert not recursive
                     return self.f.normalize(recursive)
 
+        return self
+
+    def copy(self, env: Optional[dict[Variable, Variable]] = None) -> Expr:
+        """
+        A structural copy in which abstractions have fresh parameters, so that
+        the copy can be reduced independently of the original. Bound variables
+        are replaced by copies of their bindings. Operations, sources, free
+        variables and all types are shared with the original.
+        """
+        env = env or dict()
+        if isinstance(self, Variable):
+            if self.bound:
+                return self.bound.copy(env)
+            return env.get(self, self)
+        elif isinstance(self, Application):
+            new = shallow_copy(self)
+            new.f, new.x = self.f.copy(env), self.x.copy(env)
+            return new
+        elif isinstance(self, Abstraction):
+            new = shallow_copy(self)
+            new.params = [shallow_copy(p) for p in self.params]
+            new.body = self.body.copy(
+                {**env, **dict(zip(self.params, new.params))})
+            return new
         return self
 
     def fix(self) -> None:
